@@ -87,6 +87,12 @@ func checkC06(r *core.Run, c c06Case) core.Outcome {
 		}
 	}, func(e *choice.Exec) bool { return fail == "" })
 	if fail != "" {
+		// Is decoding a function of the bytes at all? If the ONE-PIECE decode of the same bytes comes out
+		// differently from one time to the next, the library - not the delivery, not the harness - is the
+		// source: "the same sequence of records and errors" does not even hold for one delivery.
+		if u := unstableDecode(f, data); u != "" {
+			return core.Failf("%s", u)
+		}
 		// determinism gate: the same schedule must fail twice more, identically
 		for i := 0; i < 2; i++ {
 			again, _ := compare(&choice.Exec{Prefix: failChoices})
@@ -309,6 +315,46 @@ func runC06(r *core.Run) {
 				}
 			}
 		}, func(c c06Case) core.Outcome { return checkC06(r, c) })
+
+	// Lines with SEVERAL independent defects: which one is reported must not depend on anything but the
+	// bytes (a decoder that walks a map of the fields reports a different one each time).
+	r.Bound("several-defects-in-one-line", "per format 3-8 lines or trees with two or three independent defects (two malformed tags, two malformed numbers, a malformed number and a malformed tag, ...), alone and between two good records: 24 one-piece decodes of the same bytes must be identical, and every delivery schedule with <= 2 deviations must agree with them")
+	core.Clause(r, "several-defects-in-one-line", core.Opts{Rule: "inputs whose one bad line has two or three independent defects; the one-piece decode repeated 24 times must be identical in items and error texts, then the bounded schedule exploration as in long-files-bounded; non-trivial = all"},
+		func(emit func(c06Case) bool) {
+			good := "q\t0\tr\t1\t9\t*\t*\t0\t0\tA\tI"
+			multi := map[string][]string{
+				"sam":    {good + "\tNM:i:x\tAS:f:y", good + "\tNM:i:x\tAS:f:y\tXH:H:zz\tXA:A:toolong", "q\tx\tr\ty\t9\t*\t*\t0\t0\tA\tI", "q\t0\tr\t1\tz\t*\t*\t0\t0\tA\tI\tNM:i:x", good + "\tNM\tAS:q:1\tZZ:i:", good + "\tNM:i:1\tNM:i:x\tAS:f:y"},
+				"bed":    {"c\tx\ty", "c\t1\t2\tn\tx\t+\ty\tz", "c\t1\t2\tn\t0\t+\t1\t2\t1,x,3\t2\t1,y\t0,z", "c\t1\t2\tn\t0\t+\t1\t2\t300,1\t2\t1\t0,1,2"},
+				"newick": {"(a:x,b:y);", "(a:1,b:y)c:z;", "((a:x)):y;"},
+				"fastq":  {"@a\nAC\nx\nIII", "a\nAC\nx\nI"},
+			}
+			multi["samh"] = multi["sam"]
+			for _, f := range formats {
+				for _, bad := range multi[f.Name] {
+					pre, post := "", ""
+					switch f.Name {
+					case "sam", "samh":
+						pre, post = good+"\n", good+"\n"
+					case "bed":
+						pre, post = "c\t0\t1\n", ""
+					case "newick":
+						pre, post = "(a,b);\n", "(c,d);\n"
+					case "fastq":
+						pre = "@g\nA\n+\nI\n"
+					}
+					for _, v := range []string{bad + "\n", pre + bad + "\n" + post} {
+						if !emit(c06Case{Format: f.Name, Input: core.S(v), AllSizes: false, Bound: 2}) {
+							return
+						}
+					}
+				}
+			}
+		}, func(c c06Case) core.Outcome {
+			if u := unstableDecode(formatByName(c.Format), c.data()); u != "" {
+				return core.Failf("%s", u)
+			}
+			return checkC06(r, c)
+		})
 
 	bound := core.Pick(r, 2, 3)
 	r.Bound("long-files", fmt.Sprintf("every medium (40-200 byte) corpus file (LF form, and CRLF form with <= 2 deviations over all sizes) with <= %d deviations (short reads of every size / EOF with data, at any Read); the 15 placeholder-token files and the unsupported-syntax files with <= 2; the small SAM alignment files with <= 3; the ~9 KiB file and the long-line file (a line of 5000+ bytes, LF and CRLF) of every format with <= %d deviations over the size menu {1,2,3,half,max-1}", bound+1, bound))
@@ -907,7 +953,6 @@ func runC06(r *core.Run) {
 		})
 }
 
-
 // specialNames: file names made of characters that some expansion facility gives a meaning to, each
 // with decoy siblings that the expansion would pick up.
 var specialNames = []struct {
@@ -953,4 +998,16 @@ func specialNameShapes() []string {
 		l = append(l, fmt.Sprint("path:special-name:", i))
 	}
 	return l
+}
+
+// unstableDecode decodes the same bytes in one piece 24 times; "" if all observations are identical.
+func unstableDecode(f formatDef, data []byte) string {
+	first, fp := refRead(f, data)
+	for i := 0; i < 23; i++ {
+		again, ap := refRead(f, data)
+		if fp != ap || !sameShape(first, again) {
+			return fmt.Sprintf("%s: the same %d bytes %q decoded twice in one piece give different results: %s, then %s", f.Name, len(data), trunc(string(data), 120), trunc(renderObs(first)+" "+fp, 300), trunc(renderObs(again)+" "+ap, 300))
+		}
+	}
+	return ""
 }
